@@ -97,6 +97,7 @@ def run_property(prop: str, tier: str, seed: int, repo: str) -> dict[str, Any]:
         "backends": {"z3": 0, "cvc5": 0, "trivial": 0}, "solver_s": 0.0, "samples": [],
         "z3_version": z3.get_version_string(), "known_class_obligations": [],
         "contracts_only_in_other_tier": skipped,
+        "cross_checked": {"sampled": 0, "unsat": 0, "sat": 0, "unknown": 0},
         "vacuity": {"contracts": len(mine), "contracts_with_obligations": 0, "covers": 0, "covers_sat": 0},
     }
     needs_input: set = set()
@@ -123,6 +124,13 @@ def run_property(prop: str, tier: str, seed: int, repo: str) -> dict[str, Any]:
                 verdict = _cvc5(ob["smt2"], 20 if tier == "quick" else 60)
                 if verdict == "unsat":
                     ob["status"], ob["backend"] = "discharged", "cvc5"
+            elif ob["status"] == "discharged" and ob.get("smt2") and not is_known_mode:
+                # thorough tier: sampled second opinion on what z3 discharged
+                verdict = _cvc5(ob["smt2"], 20)
+                out["cross_checked"]["sampled"] += 1
+                out["cross_checked"][verdict if verdict in ("unsat", "sat") else "unknown"] += 1
+                if verdict == "sat":
+                    out["errors"].append(f"solvers disagree on {ob['name']}: z3 unsat, cvc5 sat")
             ob.pop("smt2", None)
             counts[ob["status"]] += 1
             if is_known_mode:
